@@ -334,3 +334,15 @@ func (f *vFix) vIsMember(name string) bool {
 	}
 	return false
 }
+
+// vAddSelfNamed installs the local alive record for a fixture whose config.Name is name.
+func (f *vFix) vAddSelfNamed(name string) *nodeState {
+	m := f.m
+	ns := &nodeState{Node: Node{Name: name, Addr: []byte{10, 0, 0, 2}, Port: 7946, PMin: 1, PMax: 5, PCur: m.config.ProtocolVersion},
+		Incarnation: 1, State: StateAlive, StateChange: vNow().Add(-time.Hour)}
+	m.nodeMap[name] = ns
+	m.nodes = append(m.nodes, ns)
+	m.numNodes.Store(uint32(len(m.nodes)))
+	m.incarnation.Store(1)
+	return ns
+}
